@@ -117,6 +117,7 @@ def run(ctx):
 
     # ------------------------------------------------------------------ R16.2
     r = ctx.rule("R16.2", "lookups: get/has/set/remove_attribute lower-case the queried name (ASCII) before encoding it, compare case-insensitively, return the first match; removal removes every duplicate; edits are visible to later reads", "E-MIR", floor=6)
+    sm.clause_eq_case_insensitive(r, mir)
     for nm in ("Attributes::map_attribute", "Attributes::set_attribute", "Attributes::remove_attribute"):
         f = mir.fn(nm)
         low = [bi for bi, t in f.calls(r"to_ascii_lowercase$")]
